@@ -42,6 +42,15 @@ pub mod verif {
 
 pub mod task {
     pub struct JoinHandle<T>(pub(crate) std::marker::PhantomData<T>);
+    /// Model of `tokio::task::yield_now`: pending exactly once.
+    pub struct YieldNow(bool);
+    pub fn yield_now() -> YieldNow { YieldNow(false) }
+    impl std::future::Future for YieldNow {
+        type Output = ();
+        fn poll(mut self: std::pin::Pin<&mut Self>, _cx: &mut std::task::Context<'_>) -> std::task::Poll<()> {
+            if self.0 { std::task::Poll::Ready(()) } else { self.0 = true; std::task::Poll::Pending }
+        }
+    }
 }
 
 /// Model of `tokio::spawn`: the task is parked where the harness can take and poll it.
@@ -193,6 +202,91 @@ pub mod sync {
         pub mod error {
             #[derive(Debug, PartialEq, Eq)]
             pub struct SendError<T>(pub T);
+            #[derive(Debug, PartialEq, Eq)]
+            pub enum TrySendError<T> { Full(T), Closed(T) }
+            #[derive(Debug, PartialEq, Eq, Clone, Copy)]
+            pub enum TryRecvError { Empty, Disconnected }
+        }
+
+        // ---- bounded channel (declarations for the MIR dump; the interpreter answers the calls with its own model)
+        pub struct Sender<T>(Rc<RefCell<Chan<T>>>, usize);
+        pub struct Receiver<T>(Rc<RefCell<Chan<T>>>);
+        pub fn channel<T>(buffer: usize) -> (Sender<T>, Receiver<T>) {
+            assert!(buffer > 0, "mpsc bounded channel requires buffer > 0");
+            let c = Rc::new(RefCell::new(Chan { queue: VecDeque::new(), senders: 1, rx_closed: false }));
+            (Sender(c.clone(), buffer), Receiver(c))
+        }
+        pub struct SendFut<'a, T>(&'a Sender<T>, Option<T>);
+        impl<T> Future for SendFut<'_, T> {
+            type Output = Result<(), error::SendError<T>>;
+            fn poll(self: Pin<&mut Self>, _cx: &mut Context<'_>) -> Poll<Self::Output> {
+                // SAFETY: nothing is moved out of the pinned value except the Option's content
+                let me = unsafe { self.get_unchecked_mut() };
+                let mut c = (me.0).0.borrow_mut();
+                if c.rx_closed { return Poll::Ready(Err(error::SendError(me.1.take().unwrap()))); }
+                if c.queue.len() >= (me.0).1 { return Poll::Pending; }
+                c.queue.push_back(me.1.take().unwrap());
+                Poll::Ready(Ok(()))
+            }
+        }
+        pub struct ClosedFut<'a, T>(&'a Rc<RefCell<Chan<T>>>);
+        impl<T> Future for ClosedFut<'_, T> {
+            type Output = ();
+            fn poll(self: Pin<&mut Self>, _cx: &mut Context<'_>) -> Poll<()> {
+                if self.0.borrow().rx_closed { Poll::Ready(()) } else { Poll::Pending }
+            }
+        }
+        impl<T> Sender<T> {
+            pub fn send(&self, value: T) -> SendFut<'_, T> { SendFut(self, Some(value)) }
+            pub fn try_send(&self, value: T) -> Result<(), error::TrySendError<T>> {
+                let mut c = self.0.borrow_mut();
+                if c.rx_closed { return Err(error::TrySendError::Closed(value)); }
+                if c.queue.len() >= self.1 { return Err(error::TrySendError::Full(value)); }
+                c.queue.push_back(value);
+                Ok(())
+            }
+            pub fn is_closed(&self) -> bool { self.0.borrow().rx_closed }
+            pub fn closed(&self) -> ClosedFut<'_, T> { ClosedFut(&self.0) }
+            pub fn capacity(&self) -> usize { self.1 - self.0.borrow().queue.len().min(self.1) }
+            pub fn max_capacity(&self) -> usize { self.1 }
+        }
+        impl<T> Clone for Sender<T> {
+            fn clone(&self) -> Self { self.0.borrow_mut().senders += 1; Sender(self.0.clone(), self.1) }
+        }
+        impl<T> Drop for Sender<T> {
+            fn drop(&mut self) { self.0.borrow_mut().senders -= 1; }
+        }
+        impl<T> std::fmt::Debug for Sender<T> {
+            fn fmt(&self, f: &mut std::fmt::Formatter<'_>) -> std::fmt::Result { f.write_str("Sender") }
+        }
+        impl<T> std::fmt::Debug for Receiver<T> {
+            fn fmt(&self, f: &mut std::fmt::Formatter<'_>) -> std::fmt::Result { f.write_str("Receiver") }
+        }
+        pub struct BRecv<'a, T>(&'a mut Receiver<T>);
+        impl<T> Future for BRecv<'_, T> {
+            type Output = Option<T>;
+            fn poll(self: Pin<&mut Self>, _cx: &mut Context<'_>) -> Poll<Option<T>> {
+                let mut c = (self.0).0.borrow_mut();
+                if let Some(v) = c.queue.pop_front() { return Poll::Ready(Some(v)); }
+                if c.senders == 0 || c.rx_closed { Poll::Ready(None) } else { Poll::Pending }
+            }
+        }
+        impl<T> Receiver<T> {
+            pub fn recv(&mut self) -> BRecv<'_, T> { BRecv(self) }
+            pub fn try_recv(&mut self) -> Result<T, error::TryRecvError> {
+                let mut c = self.0.borrow_mut();
+                match c.queue.pop_front() { Some(v) => Ok(v), None => Err(if c.senders == 0 { error::TryRecvError::Disconnected } else { error::TryRecvError::Empty }) }
+            }
+            pub fn close(&mut self) { self.0.borrow_mut().rx_closed = true; }
+            pub fn is_closed(&self) -> bool { self.0.borrow().rx_closed }
+            pub fn is_empty(&self) -> bool { self.0.borrow().queue.is_empty() }
+            pub fn len(&self) -> usize { self.0.borrow().queue.len() }
+        }
+        impl<T> Drop for Receiver<T> {
+            fn drop(&mut self) {
+                let drained: VecDeque<T> = { let mut c = self.0.borrow_mut(); c.rx_closed = true; std::mem::take(&mut c.queue) };
+                drop(drained);
+            }
         }
 
         pub fn unbounded_channel<T>() -> (UnboundedSender<T>, UnboundedReceiver<T>) {
@@ -207,6 +301,8 @@ pub mod sync {
                 Ok(())
             }
             pub fn is_closed(&self) -> bool { self.0.borrow().rx_closed }
+            pub fn closed(&self) -> ClosedFut<'_, T> { ClosedFut(&self.0) }
+            pub fn same_channel(&self, other: &Self) -> bool { Rc::ptr_eq(&self.0, &other.0) }
         }
         impl<T> Clone for UnboundedSender<T> {
             fn clone(&self) -> Self { self.0.borrow_mut().senders += 1; UnboundedSender(self.0.clone()) }
@@ -232,6 +328,13 @@ pub mod sync {
         impl<T> UnboundedReceiver<T> {
             pub fn recv(&mut self) -> Recv<'_, T> { Recv(self) }
             pub fn close(&mut self) { self.0.borrow_mut().rx_closed = true; }
+            pub fn try_recv(&mut self) -> Result<T, error::TryRecvError> {
+                let mut c = self.0.borrow_mut();
+                match c.queue.pop_front() { Some(v) => Ok(v), None => Err(if c.senders == 0 { error::TryRecvError::Disconnected } else { error::TryRecvError::Empty }) }
+            }
+            pub fn is_closed(&self) -> bool { self.0.borrow().rx_closed }
+            pub fn is_empty(&self) -> bool { self.0.borrow().queue.is_empty() }
+            pub fn len(&self) -> usize { self.0.borrow().queue.len() }
         }
         impl<T> Drop for UnboundedReceiver<T> {
             fn drop(&mut self) {
@@ -259,6 +362,8 @@ pub mod sync {
         pub mod error {
             #[derive(Debug, PartialEq, Eq, Clone)]
             pub struct RecvError(pub(crate) ());
+            #[derive(Debug, PartialEq, Eq, Clone)]
+            pub enum TryRecvError { Empty, Closed }
         }
         pub fn channel<T>() -> (Sender<T>, Receiver<T>) {
             let i = Rc::new(RefCell::new(Inner { value: None, tx_dropped: false, rx_dropped: false }));
@@ -272,6 +377,22 @@ pub mod sync {
                 Ok(())
             }
             pub fn is_closed(&self) -> bool { self.0.borrow().rx_dropped }
+            pub fn closed(&mut self) -> Closed<'_, T> { Closed(self) }
+        }
+        pub struct Closed<'a, T>(&'a mut Sender<T>);
+        impl<T> Future for Closed<'_, T> {
+            type Output = ();
+            fn poll(self: Pin<&mut Self>, _cx: &mut Context<'_>) -> Poll<()> {
+                if (self.0).0.borrow().rx_dropped { Poll::Ready(()) } else { Poll::Pending }
+            }
+        }
+        impl<T> Receiver<T> {
+            pub fn close(&mut self) { self.0.borrow_mut().rx_dropped = true; }
+            pub fn try_recv(&mut self) -> Result<T, error::TryRecvError> {
+                let mut i = self.0.borrow_mut();
+                if let Some(v) = i.value.take() { return Ok(v); }
+                Err(if i.tx_dropped { error::TryRecvError::Closed } else { error::TryRecvError::Empty })
+            }
         }
         impl<T> Drop for Sender<T> { fn drop(&mut self) { self.0.borrow_mut().tx_dropped = true; } }
         impl<T> Drop for Receiver<T> { fn drop(&mut self) { self.0.borrow_mut().rx_dropped = true; } }
@@ -302,6 +423,16 @@ pub mod time {
         #[derive(Debug, PartialEq, Eq)]
         pub struct Elapsed(pub(crate) ());
     }
+    /// Model of `tokio::time::sleep`: ready once the harness advanced the logical clock after creation.
+    pub struct Sleep { armed_at: u64 }
+    pub fn sleep(_d: Duration) -> Sleep { Sleep { armed_at: crate::verif::epoch() } }
+    impl Future for Sleep {
+        type Output = ();
+        fn poll(self: Pin<&mut Self>, _cx: &mut Context<'_>) -> Poll<()> {
+            if crate::verif::epoch() > self.armed_at { Poll::Ready(()) } else { Poll::Pending }
+        }
+    }
+    pub use std::time::Duration as StdDuration;
     /// Model of `tokio::time::timeout`: the inner future is polled first; the deadline has
     /// passed once the harness advanced the logical clock after the timeout was created.
     pub struct Timeout<F> { fut: F, armed_at: u64 }
@@ -320,6 +451,7 @@ pub mod time {
     }
 }
 
+pub mod time_ext {}
 #[doc(hidden)]
 pub mod macros_support {
     pub use std::future::{poll_fn, Future};
@@ -334,14 +466,23 @@ pub mod macros_support {
 /// futures are dropped before the winning handler runs.
 #[macro_export]
 macro_rules! select {
-    ( $p0:pat = $f0:expr => $h0:block $(,)? $p1:pat = $f1:expr => $h1:block $(,)? ) => {{
+    // accepted surface forms (two branches, no preconditions, no else): handlers as blocks or as expressions, optional `biased;`
+    ( biased; $p0:pat = $f0:expr => $h0:block $(,)? $p1:pat = $f1:expr => $h1:block $(,)? ) => { $crate::select!(@go (0u32) ; $p0 = $f0 => $h0 ; $p1 = $f1 => $h1) };
+    ( biased; $p0:pat = $f0:expr => $h0:expr , $p1:pat = $f1:expr => $h1:expr $(,)? ) => { $crate::select!(@go (0u32) ; $p0 = $f0 => { $h0 } ; $p1 = $f1 => { $h1 }) };
+    ( biased; $p0:pat = $f0:expr => $h0:block $(,)? $p1:pat = $f1:expr => $h1:expr $(,)? ) => { $crate::select!(@go (0u32) ; $p0 = $f0 => $h0 ; $p1 = $f1 => { $h1 }) };
+    ( biased; $p0:pat = $f0:expr => $h0:expr , $p1:pat = $f1:expr => $h1:block $(,)? ) => { $crate::select!(@go (0u32) ; $p0 = $f0 => { $h0 } ; $p1 = $f1 => $h1) };
+    ( $p0:pat = $f0:expr => $h0:block $(,)? $p1:pat = $f1:expr => $h1:block $(,)? ) => { $crate::select!(@go ($crate::verif::choose(2)) ; $p0 = $f0 => $h0 ; $p1 = $f1 => $h1) };
+    ( $p0:pat = $f0:expr => $h0:expr , $p1:pat = $f1:expr => $h1:expr $(,)? ) => { $crate::select!(@go ($crate::verif::choose(2)) ; $p0 = $f0 => { $h0 } ; $p1 = $f1 => { $h1 }) };
+    ( $p0:pat = $f0:expr => $h0:block $(,)? $p1:pat = $f1:expr => $h1:expr $(,)? ) => { $crate::select!(@go ($crate::verif::choose(2)) ; $p0 = $f0 => $h0 ; $p1 = $f1 => { $h1 }) };
+    ( $p0:pat = $f0:expr => $h0:expr , $p1:pat = $f1:expr => $h1:block $(,)? ) => { $crate::select!(@go ($crate::verif::choose(2)) ; $p0 = $f0 => { $h0 } ; $p1 = $f1 => $h1) };
+    ( @go ($start:expr) ; $p0:pat = $f0:expr => $h0:block ; $p1:pat = $f1:expr => $h1:block ) => {{
         let __out = {
             let mut __f0 = $f0;
             let mut __f1 = $f1;
             // SAFETY: the futures are not moved after being pinned; they are dropped in place.
             let mut __f0 = unsafe { $crate::macros_support::Pin::new_unchecked(&mut __f0) };
             let mut __f1 = unsafe { $crate::macros_support::Pin::new_unchecked(&mut __f1) };
-            let __start = $crate::verif::choose(2);
+            let __start: u32 = $start;
             let mut __dis0 = false;
             let mut __dis1 = false;
             $crate::macros_support::poll_fn(|cx| {
@@ -372,4 +513,15 @@ macro_rules! select {
             _ => unreachable!(),
         }
     }};
+}
+
+/// `tokio::pin!`: pins a value on the stack.
+#[macro_export]
+macro_rules! pin {
+    ($($x:ident),* $(,)?) => { $(
+        let mut $x = $x;
+        #[allow(unused_mut)]
+        // SAFETY: the original binding is shadowed, the value cannot be moved any more
+        let mut $x = unsafe { $crate::macros_support::Pin::new_unchecked(&mut $x) };
+    )* };
 }
